@@ -2,9 +2,12 @@
   C01 — frame encode/decode round trip for every message type.
   `Spec.frameValid` is the explicit, decidable "spec-valid frame" predicate; `Spec.wire` is the stated notion of equality
   after the wire (FCnt mod 2^16, FOpts/FRMPayload as the bytes they carry, shared FPending/ClassB bit).
+  A join-accept travels encrypted: `C01_roundtrip` covers the frame with its opaque payload, `C01_joinaccept_roundtrip` the
+  payload itself (and C04 the encryption between the two).
 -/
 import LW.Proofs.FrameRT
 import LW.Proofs.Stream
+import LW.Proofs.JoinAcceptRT
 namespace LW.C01
 open LW Outcome
 
@@ -33,7 +36,21 @@ theorem C01_commands (reg : Registry) (up : Bool) (cmds : List MacCmd) (bs : Byt
     decodeStream reg up bs = ok (cmds.map Stream.normCmd) :=
   Stream.stream_rt reg up cmds bs hw he
 
+/-- join-accept payload (what the device sees after decryption): every value the encoder accepts — CFList absent, five channel
+frequencies, or canonical channel masks (at most six, no trailing all-zero mask, which the wire cannot distinguish from
+padding) — decodes to itself -/
+theorem C01_joinaccept_roundtrip (ja : JoinAccept) (b : Bytes) (hcf : ∀ l, ja.cfList = some l → FrameRT.cfListCanonical l = true)
+    (h : ja.enc = ok b) : JoinAccept.dec {} b = ok ja :=
+  FrameRT.joinaccept_rt ja b hcf h
+
+/-- CFList alone: 16 bytes that decode to the same list -/
+theorem C01_cflist_roundtrip (l : CFList) (b : Bytes) (hc : FrameRT.cfListCanonical l = true) (h : l.enc = ok b) :
+    b.length = 16 ∧ CFList.dec b = ok l :=
+  FrameRT.cflist_rt l b hc h
+
 /-! non-vacuity -/
+example : FrameRT.cfListCanonical { payload := .masks [0x00ff, 0, 0x0001], typ := 1 } = true := by decide
+example : FrameRT.cfListCanonical { payload := .channels [868100000, 868300000, 0, 0, 0], typ := 0 } = true := by decide
 def sampleFHDR : FHDR := { devAddr := 0x01020304#32, fCnt := 0x10007#32, fOpts := [.cmd { cid := 2, payload := none }] }
 def sampleFrame : PHY := { mtype := 2, major := 0, mic := [1, 2, 3, 4], payload := some (.mac sampleFHDR (some 1) [.data [0xaa, 0xbb]]) }
 example : Spec.shapeOK sampleFrame = true := by decide
